@@ -48,7 +48,8 @@ func (fc *FnCtx) readBytesF(x, k, fail string) {
 		d := sel(dst, cur)
 		cnt := fc.ghArr(ghCount)
 		gd := mkAnd(guard, mkNot(mkEq(d, "0")))
-		fc.setComp(ghCount, arraySort("Int"), mkIte(gd, sto(cnt, d, "(mod (+ "+sel(cnt, d)+" "+k+") 18446744073709551616)"), cnt))
+		fc.vc.trust("threads.WriteCounter: the uint64 byte count of one message does not wrap (mathematical addition)")
+		fc.setComp(ghCount, arraySort("Int"), mkIte(gd, sto(cnt, d, mkAdd(sel(cnt, d), k)), cnt))
 		next := fc.vc.fresh("teesrc", "Int")
 		fc.vc.assert(mkEq(next, sel(src, cur)))
 		// tee readers are created after their source: the chain is acyclic (sources have smaller references)
